@@ -540,8 +540,14 @@ func doCall(op *Op, e *expr.Expression, canon func(func() string) string) (strin
 			keys = append(keys, int(k))
 		}
 		sort.Ints(keys)
+		// ... and customising the driver just obtained (the README's idea: take a driver,
+		// override a render function). The driver value is private to this operation, so
+		// the override must affect nobody else.
+		d.RenderFNs[expr.Equals] = func(l, r string) (string, error) { return l + " == " + r, nil }
+		d.RenderFNs[expr.Fuzzy] = func(l, r string) (string, error) { return "fuzzy(" + l + ")", nil }
+		cs, cerr := d.Render(expr.AND(expr.Eq("a", "b"), expr.FUZZY(expr.Lit("c"), 2)))
 		var sb strings.Builder
-		fmt.Fprintf(&sb, "drv:%d shared:%d", len(keys), n)
+		fmt.Fprintf(&sb, "drv:%d shared:%d custom:%q|%s", len(keys), n, cs, errText(cerr))
 		for _, k := range keys {
 			sb.WriteByte(' ')
 			sb.WriteString(strconv.Itoa(k))
